@@ -187,7 +187,8 @@ def main():
                       "float32 log in 'auto_po2': the exponent must lie between the exact roundings of LS*(1-2^-12) and LS*(1+2^-12)",
                       "tanh of alpha=None is a TensorFlow kernel (oracle); grouping (channel = last axis, scale_axis, elements_per_scale blocks) is applied by the harness as documented",
                       "stochastic variants are covered by C08"]
-  return rep.finish(vlib.TRUSTED_COMMON + ["model Quant/BinTern.v is hand-written; tie = certified relational checker evaluated on the implementation's inputs/outputs/scales"])
+  return rep.finish(vlib.TRUSTED_COMMON + ["translator tools/translate/btgen.py regenerates coq/gen/BinTernGen.v (deterministic paths of binary / ternary __call__ and _get_least_squares_scale); Link/BinTernLink.v proves it equal to Quant/BinTernSrc.v; means over scale groups, float32 log and the stochastic paths are not translated",
+                                          "model Quant/BinTern.v is hand-written; tie = certified relational checker evaluated on the implementation's inputs/outputs/scales"])
 
 
 if __name__ == "__main__":
